@@ -66,7 +66,9 @@ type Case struct {
 	ClientAddr  string `json:"client_addr"`      // "", "A", "C"
 	KtPrinc     string `json:"keytab_principal"` // "", "alt", "missing"
 	DecodePAC   bool   `json:"decode_pac"`
-	Replay      bool   `json:"replay"` // present the same bytes a second time
+	Replay      bool   `json:"replay"`                 // present the same bytes a second time
+	ReplayAfter int    `json:"replay_after,omitempty"` // ... after this many further valid requests of the same client (other client times) have been verified
+	Suffix      string `json:"suffix,omitempty"`       // fixed uniqueness suffix of the client name (so that several requests come from one client); "" = a fresh one per request
 
 	Defects []string `json:"defects"`
 }
@@ -341,6 +343,7 @@ type Minted struct {
 	APReq     []byte
 	Now       time.Time
 	EndTime   time.Time
+	Suffix    string // the uniqueness suffix used
 	CName     string // sealed client name (with the uniqueness suffix)
 	CRealm    string
 	Session   mint.Key
@@ -377,6 +380,9 @@ func mutator(spec string) func([]byte) []byte {
 func (c *Case) Mint(samplePAC []byte) (*Minted, error) {
 	now := time.Now()
 	suffix := fmt.Sprintf("-%d", uniq.Add(1))
+	if c.Suffix != "" {
+		suffix = c.Suffix
+	}
 	// the uniqueness suffix keeps the process-wide replay cache from coupling cases
 	cn := func(s string) string {
 		if s == "" {
@@ -496,7 +502,7 @@ func (c *Case) Mint(samplePAC []byte) (*Minted, error) {
 	}
 	a := &mint.AuthSpec{CRealm: c.ACRealm, CName: cn(c.ACName), CNameType: max(1, c.ACNameType), CTime: ctime,
 		Key: akey, Usage: c.AUsage, Conf: kgen.DetBytes(c.Seed, "c01/aconf", 16), MutateCipher: mutator(c.AMut)}
-	m := &Minted{Now: now, EndTime: t.EndTime, CName: t.CName, CRealm: c.CRealm, Session: sess}
+	m := &Minted{Now: now, EndTime: t.EndTime, CName: t.CName, CRealm: c.CRealm, Session: sess, Suffix: suffix}
 	if c.SubKey {
 		sk := mint.Key{EType: set, Value: c.K("subkey", set)}
 		a.SubKey = &sk
